@@ -564,8 +564,6 @@ def known(case, obs, verdict):
         return "S27-retriggered-failed-node-overwrites-cause"
     if case["fam"] == "dag" and isinstance(obs, dict):
         sig = verdict.split(":")[0]
-        if sig == "left-running" and _start_failure_with_jobs_out(case, obs):
-            return "S26-failure-leaves-executor-siblings-running"
     return None
 
 
